@@ -198,7 +198,7 @@ type directoryCache struct {
 	fadvDontNeed bool
 
 	closed   bool
-	closedMu sync.Mutex
+	closedMu sync.RWMutex
 }
 
 func (dc *directoryCache) Get(key string, opts ...Option) (Reader, error) {
@@ -294,7 +294,12 @@ func (dc *directoryCache) Add(key string, opts ...Option) (Writer, error) {
 	w := &writer{
 		WriteCloser: wip,
 		commitFunc: func() error {
-			if dc.isClosed() {
+			// Close removes the cache directory under this lock. Holding it until the
+			// file is in place keeps a commit that races with (or follows) Close from
+			// re-creating a part of the removed directory.
+			dc.closedMu.RLock()
+			defer dc.closedMu.RUnlock()
+			if dc.closed {
 				return fmt.Errorf("cache is already closed")
 			}
 			// Commit the cache contents
@@ -387,9 +392,9 @@ func (dc *directoryCache) Close() error {
 }
 
 func (dc *directoryCache) isClosed() bool {
-	dc.closedMu.Lock()
+	dc.closedMu.RLock()
 	closed := dc.closed
-	dc.closedMu.Unlock()
+	dc.closedMu.RUnlock()
 	return closed
 }
 
